@@ -16,7 +16,7 @@ import os
 import warnings
 
 from ..core import env, gcc, par, shrink
-from ..core.result import Failure, Report
+from ..core.result import Failure, Report, robust
 from ..ref import cexpr
 
 ID = "C02"
@@ -214,7 +214,7 @@ def _work(arg):
     out = []
     seen = set()
     for a in fails:
-        f = mk_failure(a, full)
+        f = robust(mk_failure, {"expr": cexpr.text(a, full), "ast": _tj(a), "full": full}, a, full)
         if f and f.key() not in seen:
             seen.add(f.key())
             out.append(f)
